@@ -59,6 +59,12 @@ CHECKS["C17"] = dict(engine="validate", level=("exploration", "Validate.tla defi
     technique="TLA+ request-universe spec (Validate.tla) enumerated by TLC and replayed into the real request pipeline + trace validation (TraceValidate.tla)")
 HOOK_COMMITS.append("41c409bf")
 
+SYS_NOTE = "trusted: the ~300-line Go interpreter of the module DSL (harness/verifvm.go) against its TLA+ semantics (Exec.tla); chain = the harness's final chain; small-integer values; open known findings D7 / D14 / D15 (see known_findings.json)"
+SYS_TECH = "TLA+ reference execution (Exec.tla SeqExec + Plan.tla) + trace validation (TraceSystem.tla) of real tier1/tier2 end-to-end runs"
+CHECKS["C01"] = dict(engine="system", level=("model_checking", "End-to-end: generated module programs run through the REAL tier1 service (resolution, plan, scheduler, in-process tier2 jobs in a harness-controlled completion order, squasher, walker, linear pipeline, real files) and every observed response stream / final store map is judged by TraceSystem.tla against SeqExec of Exec.tla - one sequential execution of the whole module graph, with the hand-off taken from Plan.tla. Design level: the compositional lemmas are TLC-checked models (MCStore: merge = sequential; MCPlan: coverage of the range; Sched/C05: jobs start with complete inputs). Scenarios: sequences of production / development requests with random ranges, final block, segment size, workers and job completion order over one cache directory.", "6/C01"), note=SYS_NOTE, technique=SYS_TECH)
+CHECKS["C04"] = dict(engine="system", level=("model_checking", "End-to-end: generated module programs run through the REAL tier1 service (resolution, plan, scheduler, in-process tier2 jobs in a harness-controlled completion order, squasher, walker, linear pipeline, real files) and every observed response stream / final store map is judged by TraceSystem.tla against SeqExec of Exec.tla - one sequential execution of the whole module graph, with the hand-off taken from Plan.tla. Design level: the compositional lemmas are TLC-checked models (MCStore: merge = sequential; MCPlan: coverage of the range; Sched/C05: jobs start with complete inputs). Stream-shape predicates (range, order, no duplicate, no gap from the hand-off on, cursor = block) on every run; for resumption the request is re-issued from the cursor of delivered blocks and the resumed stream must be the suffix of the original.", "6/C04"), note=SYS_NOTE + "; resumption is checked from cursors of delivered (final) blocks", technique=SYS_TECH)
+CHECKS["C07"] = dict(engine="system", level=("model_checking", "End-to-end: generated module programs run through the REAL tier1 service (resolution, plan, scheduler, in-process tier2 jobs in a harness-controlled completion order, squasher, walker, linear pipeline, real files) and every observed response stream / final store map is judged by TraceSystem.tla against SeqExec of Exec.tla - one sequential execution of the whole module graph, with the hand-off taken from Plan.tla. Design level: the compositional lemmas are TLC-checked models (MCStore: merge = sequential; MCPlan: coverage of the range; Sched/C05: jobs start with complete inputs). After a complete run, the request is re-run on random subsets of the files it left (plus *.tmp crash debris); outputs must equal SeqExec and the request must complete.", "6/C07"), note=SYS_NOTE + "; subsets are sampled (4 per scenario in the quick tier), not enumerated", technique=SYS_TECH)
+
 NOT_YET = "machinery for this property is not built yet in this revision (work in progress; see DESIGN.md section 9 for the plan)"
 
 
